@@ -131,3 +131,14 @@ def seqlogos(seqs: Seq(Str, "list", min_len=1), ax: OneOf(NoneType, Obj("Axes"))
 @contract("pyrepseq.util.align_seqs", trusted=True, props=[])
 def align_seqs(seqs: Seq(Str, "list")) -> Seq(Str, "list"):
     note("external process (mafft): not verified, no post-condition assumed")
+
+
+@contract("pyrepseq.plotting.labels_to_colors_tableau", props=["C19"], scope="label_color_calls")
+def labels_to_colors_tableau(labels: Seq(Str, "list"), min_count: OneOf(NoneType, Int)):
+    raises(None)
+    ensures(len(result) == len(labels), name="post[one colour per label]")
+    ensures(forall(TInt, TInt, lambda i, j: implies(0 <= i and i < len(labels) and 0 <= j and j < len(labels) and labels[i] == labels[j],
+                                                    same_value(result[i], result[j]))), name="post[equal labels, equal colours]")
+    ensures(forall(TInt, lambda i: implies(0 <= i and i < len(labels), is_black(result[i]) == rare(labels, labels[i], min_count))),
+            name="post[black exactly for labels rarer than min_count]")
+    canary(forall(TInt, lambda i: implies(0 <= i and i < len(labels), is_black(result[i]))), name="everything black")
